@@ -286,10 +286,10 @@ Proof.
       { intros hs Hhs E. inversion E; subst s' evs.
         split; [apply good_app_nonet; [assumption | apply no_net_single]|].
         right. apply pre_progress; assumption. }
-      destruct a; try discriminate; simpl in Hstep; simpl in Hmf; try rewrite Hmf in Hstep;
-        try (apply (Hgoal (s_helpers s) Hh); exact Hstep).
+      destruct a; try discriminate; cbv beta iota zeta in Hstep;
+        try (rewrite Hmf in Hstep; apply (Hgoal (s_helpers s) Hh); exact Hstep).
       (* ASpawn b with b = false *)
-      subst may_send. apply (Hgoal (s_helpers s) Hh). exact Hstep.
+      simpl in Hmf. subst may_send. apply (Hgoal (s_helpers s) Hh). exact Hstep.
   - rewrite Hh in Hstep. simpl in Hstep. inversion Hstep; subst. exact Hsame.
   - rewrite Hf in Hstep. simpl in Hstep. inversion Hstep; subst. exact Hsame.
 Qed.
@@ -399,14 +399,17 @@ Proof.
   destruct (rstep s e0) as [s' o] eqn:E. unfold rstep in E. rewrite Hd in E.
   destruct e0.
   - (* RReq *)
-    inversion E; subst; clear E. destruct (IH _ _ _ eq_refl H) as [pre [e [post [-> [He Hr]]]]].
+    inversion E; subst; clear E.
+    match type of H with rrun ?s1 _ = _ => destruct (IH s1 _ _ eq_refl H) as [pre [e [post [-> [He Hr]]]]] end.
     exists ((t0, RReq st0) :: pre), e, post. split; [reflexivity|]. split; [assumption|].
     simpl in *. rewrite <- app_assoc in Hr. simpl in Hr. exact Hr.
   - (* RJoined *)
-    inversion E; subst; clear E. destruct (IH _ _ _ eq_refl H) as [pre [e [post [-> [He Hr]]]]].
+    inversion E; subst; clear E.
+    match type of H with rrun ?s1 _ = _ => destruct (IH s1 _ _ eq_refl H) as [pre [e [post [-> [He Hr]]]]] end.
     exists ((t0, RJoined) :: pre), e, post. split; [reflexivity|]. split; [assumption|]. simpl in *. exact Hr.
   - (* RClosed *)
-    inversion E; subst; clear E. destruct (IH _ _ _ eq_refl H) as [pre [e [post [-> [He Hr]]]]].
+    inversion E; subst; clear E.
+    match type of H with rrun ?s1 _ = _ => destruct (IH s1 _ _ eq_refl H) as [pre [e [post [-> [He Hr]]]]] end.
     exists ((t0, RClosed) :: pre), e, post. split; [reflexivity|]. split; [assumption|].
     simpl in *. rewrite orb_true_r. exact Hr.
   - (* RPoll *)
@@ -575,7 +578,7 @@ Lemma check_barrier_ext : forall napps ok tr seen taint,
 Proof.
   induction tr as [|o r IH]; intros seen taint H; simpl; [reflexivity|].
   destruct o; rewrite ?IH by assumption; try reflexivity.
-  rewrite H. rewrite !IH by assumption. reflexivity.
+  rewrite H. rewrite ?IH by assumption. reflexivity.
 Qed.
 
 Lemma early_ok_disciplined : forall ms, all_disciplined ms = true -> forall m, early_ok ms m = false.
@@ -639,3 +642,33 @@ Proof.
   - apply andb_true_iff in H. destruct H as [H1 H2].
     apply status_eqb_eq in H1. apply N.eqb_eq in H2. subst. reflexivity.
 Qed.
+
+(* ================================================================== 5. built-in configurations *)
+
+Lemma row_ffbw : forall res p, (p = PForward -> res = false) -> frame_free_before_wait res (row p) = true.
+Proof.
+  intros res p H. destruct res.
+  - assert (p <> PForward) by (intro E; specialize (H E); discriminate).
+    pose proof (row_disciplined_except_forward p H0) as D. unfold disciplined in D.
+    apply andb_true_iff in D. apply D.
+  - pose proof (row_disciplined_not_resolving p) as D. unfold disciplined in D.
+    apply andb_true_iff in D. apply D.
+Qed.
+
+(* any mix of the built-in protocols, Forward only on machines whose routes name the MAC or that have no Arp *)
+Theorem barrier_builtin : forall (cfg : list (bool * proto)) sched,
+  (forall res p, In (res, p) cfg -> p = PForward -> res = false) ->
+  forall pre ev post,
+    run (init (map (fun x => (fst x, row (snd x))) cfg)) sched = pre ++ ev :: post -> net_event ev = true ->
+    forall i, i < length cfg -> In (EvAct i ABarrierWait) pre.
+Proof.
+  intros cfg sched H pre ev post E Hnet i Hi.
+  eapply barrier_all_interleavings; try eassumption.
+  - intros x Hx. apply in_map_iff in Hx. destruct Hx as [[res p] [<- Hin]]. simpl.
+    apply row_ffbw. intro Ep. eapply H; eassumption.
+  - rewrite map_length. assumption.
+Qed.
+
+Lemma table_has_offender :
+  exists r, In r builtin_table /\ frame_free_before_wait true (snd r) = false.
+Proof. exists (PForward, row PForward). split; [apply builtin_table_rows | reflexivity]. Qed.
